@@ -51,5 +51,5 @@ Proof. vm_compute. reflexivity. Qed.
 (** an edit history on the example *)
 Example ex_edits :
   json_safe (to_dict Z 0 0 1 (-1) cat impl_now
-     (fold_left (apply_edit Z 0) [ESetRadius Z 3 40; ESetZ Z 2 5; ESetIndex Z 1 2; ESetCoeff Z 2 0 9] ex_lens)) = true.
+     (fold_left (apply_edit Z 0) [ESetRadius Z 3 40; ESetPos Z 2 0 0 5; ESetFlat Z 1; ESetIndex Z 1 2; ESetCoeff Z 2 0 9] ex_lens)) = true.
 Proof. vm_compute. reflexivity. Qed.
